@@ -15,6 +15,7 @@ import (
 type c06Scenario struct {
 	Script mux.Script    `json:"script"`
 	Reqs   []mux.ReqSpec `json:"reqs"`
+	Bursts map[int]int   `json:"bursts,omitempty"` // op index -> number of writes done back to back on one P
 }
 
 var profLLStep = mux.Profile{Name: "ll-step", Variants: []int{mux.VariantLL}, LeadUnits: [2]int{120, 420}, MaxAudio: 1, ConstantLL: true, ParamRate: 1, SegCountMax: 9}
@@ -49,12 +50,26 @@ func drawC06(t *rapid.T) c06Scenario {
 		sc.Reqs = append(sc.Reqs, r)
 	}
 	sort.SliceStable(sc.Reqs, func(a, b int) bool { return sc.Reqs[a].AtOp < sc.Reqs[b].AtOp })
+	nb := rapid.IntRange(0, 6).Draw(t, "nbursts")
+	for i := 0; i < nb; i++ {
+		if sc.Bursts == nil {
+			sc.Bursts = map[int]int{}
+		}
+		sc.Bursts[rapid.IntRange(n/6, n-1).Draw(t, "burstAt")] = rapid.IntRange(2, 12).Draw(t, "burstLen")
+	}
+	// a hint request right before some of the bursts
+	for at := range sc.Bursts {
+		if at%2 == 0 && at > 0 {
+			sc.Reqs = append(sc.Reqs, mux.ReqSpec{AtOp: at - 1, Stream: at % 3, Kind: "hint"})
+		}
+	}
+	sort.SliceStable(sc.Reqs, func(a, b int) bool { return sc.Reqs[a].AtOp < sc.Reqs[b].AtOp })
 	return sc
 }
 
 func execC06(sc c06Scenario) core.Outcome {
 	var o core.Outcome
-	r := mux.RunC06(sc.Script, sc.Reqs, os.Getenv("VERIF_TMP"), func(class string) bool { return false })
+	r := mux.RunC06(sc.Script, sc.Reqs, sc.Bursts, os.Getenv("VERIF_TMP"), func(class string) bool { return false })
 	if r.Skip != "" {
 		o.Skip = true
 		return o
@@ -72,6 +87,9 @@ func execC06(sc c06Scenario) core.Outcome {
 	}
 	if r.DeltaSkips > 0 {
 		o.Labels = append(o.Labels, "delta-with-skips")
+	}
+	if r.Bursts > 0 {
+		o.Labels = append(o.Labels, "write-burst")
 	}
 	for _, v := range r.Violations {
 		if v.Prop != "C06" {
